@@ -129,8 +129,75 @@ func (p c10) Run(c *fw.Case) {
 
 // universeCase: reference universes (loader documents forming chains, diamonds, cycles; anchors; faults) must
 // resolve or fail with an error, and validate without panicking.
+// mixedDraftPair: a root of one draft refers into a Loader document that explicitly declares the other draft, at a node that
+// carries keywords of BOTH drafts side by side (each draft reads some of them as unknown keywords). Resolve reads the loaded
+// document under its own draft, Validate runs under the root's: the two readings must still end in a verdict or an error.
+func (p c10) mixedDraftPair(c *fw.Case) {
+	r := c.R
+	rootD7 := r.IntN(2) == 0
+	rootSchema, docSchema := "", gen.Schema7URI
+	if rootD7 {
+		rootSchema, docSchema = gen.Schema7URI, gen.Schema2020URI
+	} else if r.IntN(2) == 0 {
+		rootSchema = gen.Schema2020URI
+	}
+	both := map[string]any{
+		"$ref": "#/definitions/t", "$dynamicRef": "#/definitions/t", "$anchor": "own-an", "$dynamicAnchor": "own-dn", "$id": "#own-frag", // (names of its own: never the target of a reference, so no reference can close an in-place cycle, and no anchor is declared twice)
+		"dependentSchemas": map[string]any{"a": false}, "dependencies": map[string]any{"a": []any{"b"}, "c": map[string]any{"$ref": "#/definitions/t"}},
+		"prefixItems": []any{true, false}, "additionalItems": false, "items": []any{map[string]any{"$ref": "#/definitions/t"}},
+		"unevaluatedProperties": false, "unevaluatedItems": map[string]any{"$dynamicRef": "#dn"}, "minContains": json.Number("0"), "contains": map[string]any{"$ref": "#an"},
+		"dependentRequired": map[string]any{"a": []any{"b"}}, "definitions": map[string]any{"x": map[string]any{"$id": "#inner"}}, "$defs": map[string]any{"y": map[string]any{"$anchor": "inner2"}},
+		"$recursiveRef": "#", "$recursiveAnchor": true,
+	}
+	node := map[string]any{}
+	keys := sortedKeys(both)
+	for _, i := range r.Perm(len(keys))[:r.IntN(4)] {
+		node[keys[i]] = gen.Clone(both[keys[i]])
+	}
+	if r.IntN(10) < 7 {
+		node["$ref"] = "#/definitions/t"
+	}
+	if r.IntN(2) == 0 {
+		node["$dynamicRef"] = gen.Pick(r, []string{"#/definitions/t", "#dn", "#an"})
+	}
+	if _, isArr := node["items"].([]any); isArr && r.IntN(2) == 0 {
+		node["items"] = map[string]any{"$ref": "#/definitions/t"}
+	}
+	// (a Schema may hold definitions or $defs, not both: the shared target lives under definitions only)
+	doc := map[string]any{"$schema": docSchema, "definitions": map[string]any{"n": node, "t": map[string]any{"type": "string"}}}
+	if r.IntN(4) > 0 {
+		doc["definitions"].(map[string]any)["t"].(map[string]any)["$anchor"] = "an"
+		doc["definitions"].(map[string]any)["t"].(map[string]any)["$dynamicAnchor"] = "dn"
+	}
+	root := map[string]any{"properties": map[string]any{"p": map[string]any{"$ref": "http://h/r.json#/definitions/n"}}}
+	if rootSchema != "" {
+		root["$schema"] = rootSchema
+	}
+	rootText, docText := gen.Text(root), gen.Text(doc)
+	ld := &mapLoader{docs: map[string]string{"http://h/r.json": docText}}
+	rs, err, ok := compileDoc(c, rootText, &jsonschema.ResolveOptions{BaseURI: "http://h/root.json", Loader: ld.load, ValidateDefaults: r.IntN(4) == 0})
+	if !ok {
+		return
+	}
+	c.Eval(1)
+	c.Nontrivial("Resolve(mixed drafts)|" + errClass(err))
+	if err != nil {
+		return
+	}
+	for _, inst := range []any{map[string]any{"p": "abc"}, map[string]any{"p": 1.0}, map[string]any{"p": map[string]any{"a": 1.0}}, map[string]any{"p": []any{"x", 1.0}}, map[string]any{"p": map[string]any{"a": 1.0, "b": "s", "c": "t"}}, map[string]any{"p": []any{}}} {
+		if !c.CallChecked("Validate", map[string]any{"root": json.RawMessage(rootText), "document": json.RawMessage(docText), "instance": gen.Describe(inst)}, func() { _ = rs.Validate(inst) }) {
+			return
+		}
+		c.Eval(1)
+	}
+}
+
 func (p c10) universeCase(c *fw.Case) {
 	r := c.R
+	if r.IntN(4) == 0 {
+		p.mixedDraftPair(c)
+		return
+	}
 	var root, base string
 	var docs map[string]string
 	var loadErr map[string]bool
@@ -141,6 +208,27 @@ func (p c10) universeCase(c *fw.Case) {
 	} else {
 		u := gen.NewUniverse(r, r.IntN(4) == 0)
 		root, base, docs, loadErr, markers = u.Root, u.BaseURI, u.Docs, u.LoadErr, u.Markers
+	}
+	// mixed drafts: one Loader document explicitly declares the OTHER draft (its keywords are then read under that draft while
+	// validation runs under the root's): whatever the two readings disagree about must end in a verdict or an error
+	if len(docs) > 0 && r.IntN(4) == 0 {
+		ks := sortedKeys(docs)
+		k := ks[r.IntN(len(ks))]
+		other := gen.Schema7URI
+		if strings.Contains(root, gen.Schema7URI) {
+			other = gen.Schema2020URI
+		}
+		if strings.HasPrefix(docs[k], "{") && !strings.Contains(docs[k], `"$schema"`) {
+			nd := map[string]string{}
+			for kk, vv := range docs {
+				nd[kk] = vv
+			}
+			nd[k] = `{"$schema":"` + other + `",` + strings.TrimPrefix(docs[k], "{")
+			if nd[k] == `{"$schema":"`+other+`",}` {
+				nd[k] = `{"$schema":"` + other + `"}`
+			}
+			docs = nd
+		}
 	}
 	// hostile twist: point some reference at a keyword location that may be absent / not a schema
 	twisted := false
